@@ -338,7 +338,7 @@ func splitAnd(t string) []string {
 }
 
 func (fr *frame) oblige(st *state, kind, anchor string, pos token.Pos, cond string, desc string) {
-	if parts := splitAnd(cond); len(parts) > 1 && (kind == "post" || kind == "pre" || kind == "inv" || kind == "step") {
+	if parts := splitAnd(cond); len(parts) > 1 && (kind == "post" || kind == "pre" || kind == "inv" || kind == "step" || kind == "at") {
 		for i, p := range parts {
 			fr.oblige1(st, kind, fmt.Sprintf("%s/%d", anchor, i+1), pos, p, desc)
 		}
@@ -1022,6 +1022,22 @@ func (fr *frame) loopVars(h *ssa.BasicBlock) map[string]TV {
 // its value is loaded from the given state.
 func (fr *frame) addrLocal(st *state, name string) (TV, bool) {
 	u := fr.fc.e.u
+	// a variable of the enclosing function captured by reference (inlined closure)
+	for _, fv := range fr.fn.FreeVars {
+		if fv.Name() != name {
+			continue
+		}
+		if pt, ok := fv.Type().Underlying().(*types.Pointer); ok && fr.bindFr != nil {
+			et := pt.Elem()
+			ref := fr.val(fv)
+			site := fr.siteOf(fv)
+			if u.structInfoOf(et) != nil {
+				return TV{T: fr.loadStruct(st, ref, et, site), Sort: u.sortOf(et), Typ: et}, true
+			}
+			srt := u.sortOf(et)
+			return TV{T: app("select", fr.fc.hget(st, "C|"+srt+site), ref), Sort: srt, Typ: et}, true
+		}
+	}
 	var found *ssa.Alloc
 	var cands []*ssa.Alloc
 	for _, b := range fr.fn.Blocks {
@@ -1133,6 +1149,10 @@ func (fr *frame) namedAt(b *ssa.BasicBlock, strict bool) map[string]ssa.Value {
 			if dr, ok := in.(*ssa.DebugRef); ok && !dr.IsAddr {
 				id, ok := dr.Expr.(*ast.Ident)
 				if !ok {
+					continue
+				}
+				if _, isConst := dr.X.(*ssa.Const); isConst {
+					// (the builder records "is nil" for a variable defined by a composite literal before the real value)
 					continue
 				}
 				dup := false
